@@ -57,7 +57,7 @@ def run_one(job, props, slot):
         if r.returncode != 0:
             res["error"] = "patch does not apply: " + (r.stdout + r.stderr)[-300:]
             return res
-        env = dict(os.environ, JL_REPO=repo, JL_EVIDENCE_DIR=os.path.join(tmp, "evidence"), JL_CACHE=os.path.join(VERIF, ".cache", "km-w%d" % slot))
+        env = dict(os.environ, JL_REPO=repo, JL_EVIDENCE_DIR=os.path.join(tmp, "evidence"), JL_CACHE=os.path.join(VERIF, ".cache", "km-w%d" % (slot + int(os.environ.get("KM_SLOT_BASE", "0")))))
         for p in props:
             t0 = time.time()
             r = subprocess.run([os.path.join(VERIF, "check"), p], env=env, capture_output=True, text=True, cwd=VERIF)
